@@ -104,11 +104,17 @@ def api_file_name(sel: List[int]) -> bool:
         cur = Cur()
         name = SRC_NAMES[rd(sel, cur, len(SRC_NAMES))]
         out = OUTS[rd(sel, cur, len(OUTS))]
+        wrapper = rd(sel, cur, 2) == 1  # the source directory merely contains the package (get_api moves its root there)
     except OutOfRange:
         return True
     events = []
 
     class Api:
+        # what get_api records: the name of the directory it finally analysed (root.stem), not the -s directory
+        package = "inner_pkg" if wrapper else name.rsplit(".", 1)[0] if "." in name else name
+        distribution = ""
+        version = ""
+
         def to_json_file(self, path):
             events.append(("json", str(path)))
 
@@ -137,8 +143,8 @@ def CANDIDATES(func: str):
     import itertools
 
     if func == "api_file_name":
-        for sel in itertools.product(range(len(SRC_NAMES)), range(len(OUTS))):
-            yield [list(sel) + [0] * 10]
+        for sel in itertools.product(range(len(SRC_NAMES)), range(len(OUTS)), range(2)):
+            yield [list(sel) + [0] * 9]
     else:
         for sel in itertools.product(range(2), range(len(OUTS)), range(len(MOD_IDS)), range(4), range(2), range(3)):
             yield [list(sel) + [0] * 6]
